@@ -77,7 +77,8 @@ def compile_script(text):
     return job
 
 
-def run_script(text, pop, faults=None, job=None, settings_overrides=None, timeout=5.0):
+def run_script(text, pop, faults=None, job=None, settings_overrides=None, timeout=5.0,
+               stub=True):
     """returns Result with: compiled (bool), errors, program (list of Instruction), events
     (canonical), fault (None or the catch-all message), net"""
     from bardolph.vm import machine as machine_mod
@@ -85,7 +86,12 @@ def run_script(text, pop, faults=None, job=None, settings_overrides=None, timeou
     trace = []
     net, ls, trace = simnet.install(pop, faults=faults, trace=trace,
                                     settings_overrides=settings_overrides)
-    stub_random()
+    if stub:
+        stub_random()
+    else:
+        import random as real_random
+        from bardolph.runtime import bardolph_math
+        bardolph_math.py_random = real_random
     shim = LogShim()
     machine_mod.logging = shim
     res.net = net
